@@ -19,15 +19,45 @@ def analysis(config="all"):
 TIER = {"tier": "quick"}
 
 
-def run_rules(prop, level, rules, floors, explanation, trusted, extra=None, not_decided=None, alias=None):
+# structural rules whose content is decided by the semantic engine (rules/psai_rules.py) whenever that engine could follow every path of
+# the 16 core entry points; they are consulted only as the second opinion when it could not
+SUPERSEDED = {"C01.R1", "C01.R2", "C01.R3", "C01.R4", "C01.R5", "C01.R8", "C01.R9", "C01.R10", "C02.R1", "C02.R2", "C02.R3", "C02.R4", "C02.R6", "C02.R7", "C02.R9",
+              "C04.R1", "C04.R2", "C04.R3", "C04.R4", "C05.R2", "C06.R1", "C07.R4", "C08.R1", "C08.R3", "C08.R4", "C08.R5", "C10.R3"}
+_sem = {}
+
+
+def semantic(config="all"):
+    if config not in _sem:
+        from .. import psai_rules
+        facts, _f, entries, _p = analysis(config)
+        _sem[config] = psai_rules.analyse(facts, entries)
+    return _sem[config]
+
+
+def run_rules(prop, level, rules, floors, explanation, trusted, extra=None, not_decided=None, alias=None, sem_rules=None):
     res = Result(prop, level)
     res.trusted = trusted
     res.assumptions = ["rustc MIR (mir-opt-level=0) of the all-features configuration is a faithful CFG of the source",
                        "content-preserving std conversions (as_ref, deref, into, to_vec, to_owned ...) are as tabulated in rules/mir.py TRANSPARENT_DEFS"]
     facts, findings, entries, protos = analysis()
     alias = alias or {}
+    sem_rules = sem_rules or {}
+    sem = semantic() if sem_rules else {"findings": [], "undecided": []}
+    sem_ok = bool(sem_rules) and not sem["undecided"]
+    res.sem_ok = sem_ok
+    for f in sem["findings"]:
+        if f.rule in sem_rules:
+            res.oblige(f.ok)
+            if f.ok:
+                res.inst(f.rule, f.desc)
+            else:
+                res.violate(f.rule, f.where, f.construct, f.msg, file=f.file, line=f.line)
+    for wid, role, why in sem["undecided"]:
+        res.notes.append("semantic engine undecided for %s (%s): %s - structural rules consulted instead" % (M.short(wid)[-60:], role, str(why)[:200]))
     for f in findings:
         if f.rule not in rules and f.rule not in alias:
+            continue
+        if sem_ok and f.rule in SUPERSEDED:
             continue
         # a rule of a sibling property that is also a necessary condition of this one is reported under this property's own id
         rid = f.rule if f.rule in rules else alias[f.rule]
@@ -39,7 +69,12 @@ def run_rules(prop, level, rules, floors, explanation, trusted, extra=None, not_
     if extra:
         extra(res, facts, entries, protos)
     for r, n in floors.items():
+        if sem_ok and r in SUPERSEDED:
+            continue
         res.floor(r, n)
+    if sem_ok:
+        for r, n in sem_rules.items():
+            res.floor(r, n)
     if TIER["tier"] == "thorough":
         # the same rules on each singleton configuration and on the default one (cfg-dependent code variants); rules about
         # items that do not exist in a smaller configuration are skipped, floors apply to the all-features run only
@@ -51,8 +86,18 @@ def run_rules(prop, level, rules, floors, explanation, trusted, extra=None, not_
             except F.ExtractError as e:
                 res.violate(prop + ".R0", "config[%s]" % cfg, "does not type-check", "configuration %s does not type-check: %s" % (cfg, (F.rustc_errors(e.stderr) or ["?"])[0][:200]))
                 continue
+            sem2 = semantic(cfg) if sem_rules else {"findings": [], "undecided": []}
+            ok2 = bool(sem_rules) and not sem2["undecided"]
+            for f in sem2["findings"]:
+                if f.rule in sem_rules:
+                    n_extra += 1
+                    res.oblige(f.ok)
+                    if not f.ok:
+                        res.violate(f.rule, f.where, f.construct, "[configuration %s] %s" % (cfg, f.msg), file=f.file, line=f.line)
             for f in fnd2:
                 if f.rule not in rules and f.rule not in alias:
+                    continue
+                if ok2 and f.rule in SUPERSEDED:
                     continue
                 if not f.ok and re.search(r"missing|expected one|expected exactly one|not found|anchor", f.msg + " " + f.construct):
                     continue
